@@ -467,8 +467,21 @@ def guard_info(facts, b):
             if mbd is not None and any(st['k'] == 'assign' and st['lhs']['l'] == 1 and st['lhs']['p'] and st['lhs']['p'][0] == 'deref' and len(st['lhs']['p']) > 1
                                        for _b3, _i, st in mbd.stmts()):
                 disarm.append(b2)
+        # a consuming disarm method: `fn commit(mut self) { self.keep = true }` - the guard is handed over by value, the method stores
+        # into a field of it and lets it drop
+        consuming = set()
+        for b2, t2 in b.calls():
+            if t2['args'] and 'move' in t2['args'][0] and not t2['args'][0]['move']['p'] and b.op_root(t2['args'][0])[0] == l \
+                    and not b.lty(t2['args'][0]['move']['l']).startswith('&'):
+                mbd = facts.body(cpath(t2) or '')
+                if mbd is not None and any(st['k'] == 'assign' and st['lhs']['l'] == 1 and st['lhs']['p'] and st['lhs']['p'][0] != 'deref'
+                                           and (op_const(st['rv'].get('use', {})) or {}).get('int') == 1 for _b3, _i, st in mbd.stmts()):
+                    disarm.append(b2)
+                    consuming.add(b2)
         moved = False
         for b2, t2 in b.calls():
+            if b2 in consuming:
+                continue
             for a in t2['args']:
                 if 'move' in a and a['move']['l'] == l and not a['move']['p']:
                     moved = True
